@@ -83,6 +83,10 @@ def generate(ctx):
     return cases
 
 
+def canon_small(log):
+    return "".join("%d:%s;" % (r["id"], ",".join(map(str, r["parents"]))) for r in log[:50])
+
+
 def idb(i):
     return b"rev-%d" % i
 
@@ -99,8 +103,13 @@ def check_cases(ctx, cases):
         ctx.count("max_parents=%d" % min(8, max([len(r["parents"]) for r in log] or [0])))
         inp = [{"id": idb(r["id"]), "parents": [idb(p) for p in r["parents"]], "extra": i} for i, r in enumerate(log)]
         try:
+            # the log is "an iterable": also handed over as a tuple and as one-shot iterators
+            how = ("list", "tuple", "iter", "generator", "reversed")[len(canon_small(log)) % 5]
+            ctx.count("log-as=" + how)
+            arg = {"list": lambda: inp, "tuple": lambda: tuple(inp), "iter": lambda: iter(inp), "generator": lambda: (r for r in inp),
+                   "reversed": lambda: reversed(list(reversed(inp)))}[how]()
             with ctx.time_limit(60):
-                out = list(toposort(inp))
+                out = list(toposort(arg))
         except (Exception, RecursionError) as e:
             ctx.fail(case, f"toposort raises {type(e).__name__} on a valid log of {len(log)} revisions", "raises:" + type(e).__name__)
             impls.append(None)
